@@ -238,6 +238,21 @@ func DirectiveRunShape(prog *load.Program, fn *ssa.Function) Result {
 		res.Detail = t
 		return res
 	}
+	// "in order": the list of matches is only measured and indexed; nothing can permute it
+	if refs := find.Referrers(); refs != nil {
+		for _, r := range *refs {
+			switch x := r.(type) {
+			case *ssa.IndexAddr, *ssa.DebugRef:
+				continue
+			case *ssa.Call:
+				if bi, ok := x.Call.Value.(*ssa.Builtin); ok && bi.Name() == "len" {
+					continue
+				}
+			}
+			res.Detail = "the list of matches is used by " + r.String() + " (" + prog.Pos(r.Pos()) + "): the directives are no longer known to be applied in the order of the text"
+			return res
+		}
+	}
 	// the receiver is Directives[opt.Name]
 	ex, ok := apply.Call.Value.(*ssa.Extract)
 	if !ok {
